@@ -287,6 +287,10 @@ def gen_history(rng, opts):
             if created_by(run, classes):
                 scripts.append((cname, script))
                 created += 1
+    for run in runs:
+        if run['run'] in ('op', 'play') and rng.random() < 0.08:
+            # the service calls its operation with keyword arguments of its own choosing
+            run['opKw'] = rng.sample(['func', 'args', 'kwargs', 'category', 'metadata', 'recording_id', 'self_'], rng.randint(1, 2))
     case = {'cassette': rng.choice(opts.get('cassettes', ['memory'])), 'classes': classes, 'sites': sites, 'runs': runs}
     if opts.get('aliasing'):
         # values with internal aliasing: keep objects out of the same history (an object written before a reference
